@@ -49,7 +49,7 @@ CLAIMED = {
         note="Trusted: TLC, projection as C01, small integer scores so np.mean order equals exact rational order. Empty fitness histories are outside the quantifier.",
         design="4/C05"),
     "C07": dict(
-        technique="TLA+ life-cycle spec Evo.tla (Save/LoadNew/LoadInto with RestoreOK, learn memo) model-checked by TLC + TLC trace validation of save/load scripts on real agents of all algorithms",
+        technique="TLA+ life-cycle spec Evo.tla (Save/LoadNew/LoadInto with RestoreOK, learn memo) model-checked by TLC + TLC trace validation of save/load scripts on real agents of all algorithms; delayed-policy learners (policy_freq 2, 3) through save / load at every phase of the delay, steps after the load validated by TLC against Track.tla (Track_Trace)",
         text="TLC checks RestoreOK/Functional over all operation sequences with one file. Scripts with histories of learn steps and mutations before the save, the original moving on, load into a new and into an existing agent, and both continuing with the same batches are executed on real agents; TLC validates field by field (hp, mutated architectures, weights of evaluation and target networks, optimizer state, bookkeeping, algorithm-specific tensors, greedy outputs) and that original-at-save-time and restored agent reach the same weights.",
         note="Trusted: as C01. Crash points are modelled as loading an earlier file after the agent moved on (a save is a single torch.save). Agent wrappers (RSNorm) are not yet covered.",
         design="4/C07"),
@@ -89,7 +89,7 @@ CLAIMED = {
         note="Trusted: TLC, 1e-6 fixed-point encoding of sigma_inv (tolerance 1.2e-5), residual tolerance 1e-3 for float features. Re-initialisation on mutation is allowed by the property and accepted.",
         design="4/C19"),
     "C08": dict(
-        technique="TLA+ specs Bellman.tla (tabular exact Bellman target / loss for max, double, actor, actor-min learners; DoneMasks) and Track.tla (target-tracking protocol with policy delay over learn / clone / mutate / load) model-checked by TLC + TLC-dumped grid replayed into the real learn() with tabular custom networks, differential done-masking runs, and tracking traces of real agents validated by TLC",
+        technique="TLA+ specs Bellman.tla (tabular exact Bellman target / loss for max, double, actor, actor-min learners; DoneMasks) and Track.tla (target-tracking protocol with policy delay over learn / clone / mutate / load) model-checked by TLC + TLC-dumped grid replayed into the real learn() with tabular custom networks, differential done-masking runs, and tracking traces of real agents validated by TLC; RainbowDQN's loss of real learn() calls validated by TLC against C51.tla (C51_Trace)",
         text="TLC checks DoneMasks, TerminalIsReward, Bootstraps, LossDef on the tabular grid (with negative controls that must fail) and TargetTracks / BoundedLag on the protocol. 55k grid cases are replayed into the real DQN / double DQN / CQN / DDPG / TD3 learn() built on table-lookup EvolvableModules (Q(s,a), Y and loss compared exactly), MADDPG/MATD3 joint cases validated as traces, Rainbow and CQN by bit-exact / tolerance differential runs; life-cycle scripts with the real Mutations and checkpoints classify every target tensor as lerp/noop/copy and TLC demands lerp at exactly the protocol's positions. LossOnly: every learn step of the module-based learners equals the step of an exact copy with cleared gradient buffers; no-op mutation rounds are part of the tracking scripts.",
         note="Trusted: TLC, forward hook on the criterion to read Q and Y, tolerance 1e-5 for the lerp classification (tau in {1/2,1/4}), policy_noise=0 in tabular runs. The numeric value of CQN's logsumexp regulariser is not predicted.",
         design="4/C08, 5"),
